@@ -295,7 +295,8 @@ def run(prop, tier, replay=None):
         rep.cov["exhaustive"] = bool(complete)
         try:
             _, iv = implconf.stage(rep, 200 if tier == "quick" else 3000, seed)
-            nd = sum(1 for x in iv.values() if x["verdict"] == "DRIFT")
+            _, iv2 = implconf.stage_bt(rep, 40 if tier == "quick" else 600, seed)
+            nd = sum(1 for x in list(iv.values()) + list(iv2.values()) if x["verdict"] == "DRIFT")
             if nd:
                 print("NOTE: property=C08 the private state of %d recorded executions differs from the implementation-shaped model BtImpl "
                       "(design-level results of MC_BtImpl no longer transfer to this code; see evidence impl_conformance)" % nd)
